@@ -202,3 +202,174 @@ def c14_3(run):
     if not n_ok:
         raise Inconclusive('vacuity: no Ok path')
     run.require_reached(*run.cur.reach)
+
+
+# ----------------------------------------------------------------------------------------------------------------- C14-4 (pre-Aspen storage and the migration)
+from mirsym import models as M
+VKA = z3.Function('vk_address', z3.BitVecSort(256), z3.BitVecSort(160))
+PRE_ASPEN = {'no_upgrade_active': True}
+
+
+def sym_set(W, ex, tag, n):
+    """a ValidatorSet with n entries: keys ascending (BTreeMap), key_i = address(verification_key_i) (the invariant every constructor / insert keeps), powers symbolic"""
+    ents = []; pc = []
+    for i in range(n):
+        vk = z3.BitVec(f'{tag}_vk{i}', 256); pw = z3.BitVec(f'{tag}_power{i}', 32); k = z3.BitVec(f'{tag}_addr{i}', 160)
+        ents.append((k, W.validator_update_obj(ex, vk, pw))); pc.append(k == VKA(vk))
+    pc += [z3.ULT(ents[i][0], ents[i + 1][0]) for i in range(n - 1)]
+    return ents, pc
+
+
+def set_obj(ex, ents):
+    inner = M.new_map('BTreeMap<[u8; 20], ValidatorUpdate>', [(k, ex.copy_val(v)) for k, v in ents])
+    vs = Obj('authority::ValidatorSet'); vs.fields[(None, 0)] = inner
+    return vs
+
+
+def lookup(ex, W, p, items, a):
+    """(present, power) of address a in a list of (key, ValidatorUpdate) entries"""
+    present, power = z3.BoolVal(False), z3.BitVecVal(0, 32)
+    for e in items:
+        k, pw = entry_fields(ex, W, p, e)
+        power = z3.If(k == a, pw, power); present = z3.Or(present, k == a)
+    return present, power
+
+
+@obligation('C14', 'C14-4a ValidatorSet::apply_updates (pre-Aspen end_block): the stored set after the block is the block-start set with every update applied the way CometBFT applies it (power 0 removes, otherwise insert / overwrite)')
+def c14_4a(run):
+    ex, W = A.engine()
+    f = ex.find(r'authority::<impl at [^>]*>::apply_updates$')
+    run.bound(sets='block-start set of 0..2 validators, update set of 0..2 entries, all addresses and powers symbolic (aliasing between the two sets allowed)')
+    a = z3.BitVec('any_addr', 160); n = 0
+    for nc in (0, 1, 2):
+        for nu in (0, 1, 2):
+            cur, pc1 = sym_set(W, ex, 'cur', nc); upd, pc2 = sym_set(W, ex, 'upd', nu)
+            st = ex.start(f, [B.cell(set_obj(ex, cur)), set_obj(ex, upd)])
+            st.pc += pc1 + pc2
+            for i, p in enumerate(run.explore(ex, st)):
+                lab = f'[{nc} current, {nu} updates, path {i}]'
+                if p.kind != 'return':
+                    run.prove(f'no panic {lab}', p.pc, z3.BoolVal(False), detail=p.info); continue
+                n += 1
+                after = ex.read(p, p.roots['args'][0].loc).fields[(None, 0)].attrs['items']
+                c_in, c_pw = lookup(ex, W, p, cur, a); u_in, u_pw = lookup(ex, W, p, upd, a); r_in, r_pw = lookup(ex, W, p, after, a)
+                run.prove(f'result[a] = update[a] if a is updated (removed when power 0), else current[a] {lab}', p.pc,
+                          z3.If(u_in, z3.If(u_pw == 0, z3.Not(r_in), z3.And(r_in, r_pw == u_pw)), z3.And(r_in == c_in, z3.Implies(c_in, r_pw == c_pw))))
+                ks = [k for k, _ in after]
+                run.prove(f'the result stays a map: distinct keys {lab}', p.pc, z3.And(*[ks[x] != ks[y] for x in range(len(ks)) for y in range(x + 1, len(ks))]) if len(ks) > 1 else z3.BoolVal(True))
+    if not n:
+        raise Inconclusive('vacuity')
+    run.require_reached(*run.cur.reach)
+
+
+@obligation('C14', 'C14-4b Aspen migration (handle_aspen_upgrade): every validator of the single stored set is written to per-validator storage, the stored count equals the size of the set, the old object is removed; nothing else changes')
+def c14_4b(run):
+    ex, W = A.engine()
+    f = ex.find(r'authority::component::<impl at [^>]*>::handle_aspen_upgrade$')
+    run.bound(set='pre-Aspen set of 0..3 validators with symbolic keys and powers')
+    run.assume('before the migration the per-validator store is empty (it is written only by post-Aspen code) and every set key is the address of its validator\'s verification key')
+    a = z3.BitVec('any_addr', 160); n_ok = 0
+    for n in (0, 1, 2, 3):
+        ents, pc = sym_set(W, ex, 'set', n)
+        w0 = initial_world()
+        world = dict(w0, block_fees=[], cached_deposits=[], events=[], validator_updates=[], pre_aspen_set=list(ents), **PRE_ASPEN)
+        st = ex.start(f, [B.cell(Obj('S', kind='cell'))], world=world)
+        st.pc += pc + [w0['validator_power?'] == z3.K(z3.BitVecSort(160), False)]
+        for i, p in enumerate(run.explore(ex, st, poll=True, allow_havoc=(r'^Arguments::|fmt::',))):
+            lab = f'[{n} validators, path {i}]'
+            if p.kind != 'return':
+                run.prove(f'no panic {lab}', p.pc, z3.BoolVal(False), detail=p.info); continue
+            kind, r = A.poll_result(p)
+            run.sample({'validators': n, 'path': i, 'result': kind})
+            if kind != 'Ok':
+                continue
+            n_ok += 1
+            s_in, s_pw = lookup(ex, W, p, ents, a)
+            run.prove(f'after the migration: stored[a] present iff a was in the set, with its power and key; count = size of the set; old object gone {lab}', p.pc,
+                      z3.And(z3.Select(p.world['validator_power?'], a) == s_in, z3.Implies(s_in, z3.Select(p.world['validator_power'], a) == z3.ZeroExt(32, s_pw)),
+                             p.world['validator_count'] == z3.BitVecVal(n, 64), z3.BoolVal(p.world.get('pre_aspen_set') is None)))
+            run.prove(f'the migration writes only validator storage {lab}', p.pc, unchanged(w0, p.world, except_={'validator_power', 'validator_key', 'validator_count'}))
+    if not n_ok:
+        raise Inconclusive('vacuity: migration never succeeds')
+    run.require_reached(*run.cur.reach)
+
+
+def classify_f11(n, ents, a1, pw1, a2, pw2):
+    """the recorded finding is exactly: block-start set of two validators, the two actions remove (power 0) the two different validators"""
+    def c(model):
+        if n != 2:
+            return None
+        ev = lambda e: model.eval(e, model_completion=True)
+        k0, k1 = ents[0][0], ents[1][0]
+        is_f11 = z3.And(pw1 == 0, pw2 == 0, a1 != a2, z3.Or(a1 == k0, a1 == k1), z3.Or(a2 == k0, a2 == k1))
+        return 'pre-aspen-two-removals-in-one-block-empty-the-set' if z3.is_true(ev(is_f11)) else None
+    return c
+
+
+@obligation('C14', 'C14-4c pre-Aspen: two ValidatorUpdates in one block followed by end_block never empty the stored set and never remove a validator that is not in it')
+def c14_4c(run):
+    ex, W = A.engine()
+    apply_f = ex.find(r'authority::<impl at [^>]*>::apply_updates$')
+    run.bound(block='two ValidatorUpdate actions in one block on the pre-Aspen code path, block-start set of 1..2 validators (symbolic keys and non-zero powers), then ValidatorSet::apply_updates as end_block does',
+              upgrades='no upgrade change active (pre-Aspen)')
+    a = z3.BitVec('any_addr', 160); n2 = 0
+    for n in (1, 2):
+        ents, pc = sym_set(W, ex, 'set', n)
+        pc = pc + [B.fld(ex, None, v, 'power', 'u32') != 0 for _, v in ents] if False else pc + [z3.BitVec(f'set_power{i}', 32) != 0 for i in range(n)]
+        w0 = initial_world()
+        extra = dict(PRE_ASPEN, pre_aspen_set=list(ents))
+        w0, first = A.run_action(run, ex, W, 'ValidatorUpdate', w0=w0, world_extra=extra, pc=pc)
+        for i, (p1, k1, r1, me1) in enumerate(first):
+            if k1 == 'panic':
+                run.prove(f'no panic [first, {n} validators, path {i}]', p1.pc, z3.BoolVal(False), detail=p1.info); continue
+            if k1 != 'Ok':
+                continue
+            _, second = A.run_action(run, ex, W, 'ValidatorUpdate', w0=w0, start_world=p1.world, pc=p1.pc, tag='second')
+            for j, (p2, k2, r2, me2) in enumerate(second):
+                if k2 == 'panic':
+                    run.prove(f'no panic [second, {n} validators, paths {i},{j}]', p2.pc, z3.BoolVal(False), detail=p2.info); continue
+                if k2 != 'Ok':
+                    continue
+                ups = p2.world['validator_updates']
+                a1, pw1, _ = action_fields(ex, W, p1, me1); a2, pw2, _ = action_fields(ex, W, p2, me2)
+                cls = classify_f11(n, ents, a1, pw1, a2, pw2)
+                st = ex.start(apply_f, [B.cell(set_obj(ex, ents)), set_obj(ex, ups)])
+                st.pc += list(p2.pc)
+                for l, p3 in enumerate(run.explore(ex, st)):
+                    lab = f'[{n} validators at block start, paths {i},{j},{l}]'
+                    if p3.kind != 'return':
+                        run.prove(f'no panic in apply_updates {lab}', p3.pc, z3.BoolVal(False), detail=p3.info); continue
+                    n2 += 1
+                    after = ex.read(p3, p3.roots['args'][0].loc).fields[(None, 0)].attrs['items']
+                    run.sample({'validators': n, 'updates': len(ups), 'after': len(after)})
+                    run.prove(f'the stored set is not empty after the block {lab}', p3.pc, z3.BoolVal(len(after) > 0), classify=cls)
+                    for e in ups:
+                        k, pw = entry_fields(ex, W, p3, e)
+                        s_in, _ = lookup(ex, W, p3, ents, k)
+                        run.prove(f'a power-0 update only names a validator of the block-start set {lab}', p3.pc, z3.Implies(pw == 0, s_in))
+    if not n2:
+        raise Inconclusive('vacuity: no pair of successful pre-Aspen updates')
+    run.require_reached(*run.cur.reach)
+
+
+def replay_f11(model=None, path=None):
+    """native demonstration of F11: pre-Aspen, two removals in one block empty the stored validator set"""
+    from vlib import replay
+    code = open('/verif/replay_templates/c14_pre_aspen_empty.rs').read()
+    r = replay.run_crate_test('astria-sequencer', 'crates/astria-sequencer/src/checked_actions/validator_update.rs', code, 'verif_replay_c14_pre_aspen')
+    if not r['lines']:
+        return {'mode': 'native-crate-test', 'reproduced': None, 'error': r['output'][-1500:]}
+    o = r['lines'][-1]
+    return {'mode': 'native-crate-test', 'scenario': 'pre-Aspen chain with validators {ALICE, BOB}; one block removes ALICE and removes BOB; then end_block', 'observed': o,
+            'reproduced': bool(o['pre_aspen'] and o['set_before'] == 2 and o['first_ok'] and o['second_ok'] and o['set_after'] == 0 and o['removals_sent'] == 2)}
+
+
+@obligation('C14', 'C14-4n native demonstration of the recorded finding F11 (informational: records whether it still reproduces; never fails the check)', tiers=('thorough',))
+def c14_4n(run):
+    run.bound(scenario='one concrete pre-Aspen block with two validator removals')
+    v = replay_f11()
+    run.sample({'native_demonstration': v})
+    run.cur.paths += 1
+    run.reached('native demonstration executed')
+    if v.get('reproduced') is None:
+        run.cur.notes.append('native demonstration of F11 could not be run: ' + str(v.get('error'))[-300:])
